@@ -175,7 +175,7 @@ class C02(core.Check):
                                                                              'source': case['runs'][0]['files']['p.asm'][:1200]},
                                                 buckets=tags, nt=nt))
                         break
-                    if e['bytes'] is not None and bytes(rr[0]['bytes']).hex() != e['bytes'] and not vs:
+                    if e['bytes'] is not None and not e['muted'] and bytes(rr[0]['bytes']).hex() != e['bytes'] and not vs:
                         vs.append(core.violated('listing-bytes/' + e['k'], {'line': ln, 'text': e['text'], 'expected': e['bytes'],
                                                                            'got': bytes(rr[0]['bytes']).hex(),
                                                                            'labels': m['labels']}, buckets=tags, nt=nt))
